@@ -29,6 +29,7 @@ def episodes(prop, tier, seed):
     if prop == "C19":
         out["rand"] = (gen_mod2.random_episodes(seed, 2500 if q else 40000), "verif")
         out["sparse"] = (gen_mod2.sparse_episodes(seed + 1, 120 if q else 1500, 120 if q else 400), "verif")
+        out["long"] = (gen_mod2.long_episodes(seed + 4, 40 if q else 400), "verif")
         out["rand-release"] = (gen_mod2.random_episodes(seed + 2, 800 if q else 15000)
                                + gen_mod2.sparse_episodes(seed + 3, 40 if q else 500, 120 if q else 400), "release")
     if prop == "C12":
